@@ -105,7 +105,7 @@ uint64_t Rnd() { g_rng ^= g_rng << 13; g_rng ^= g_rng >> 7; g_rng ^= g_rng << 17
 struct SimJobserver : public Jobserver::Client {
   int free_tokens = 0;        // explicit tokens currently in the pool
   bool implicit_free = true;  // the implicit slot
-  int acquired = 0, released = 0;
+  int acquired = 0, released = 0, try_calls = 0;
   JV* events = nullptr;
   std::vector<int> thief;     // per wait point: delta applied to the pool (steal <0 / give back >0)
   int stolen = 0;
@@ -116,6 +116,7 @@ struct SimJobserver : public Jobserver::Client {
     events->push(std::move(e));
   }
   Jobserver::Slot TryAcquire() override {
+    ++try_calls;
     if (implicit_free) { implicit_free = false; ++acquired; Ev("acq", true, true); return Jobserver::Slot::CreateImplicit(); }
     if (free_tokens > 0) { --free_tokens; ++acquired; Ev("acq", true, false); return Jobserver::Slot::CreateExplicit('+'); }
     Ev("acq", false, false);
@@ -162,6 +163,8 @@ struct SimRunner : public CommandRunner {
   std::string fail_start;      // out0 whose StartCommand returns false
   size_t wait_index = 0;
   int step_bound = 100000;
+  bool last_was_token = false;
+  int try_calls_at_token = 0;
 
   struct Running {
     Edge* edge; const Stmt* st; std::string out0, cmd, rsp_content;
@@ -358,6 +361,12 @@ struct SimRunner : public CommandRunner {
     ev.set("running", std::move(run));
     if (jobserver) { ev.set("free", jobserver->free_tokens); ev.set("implicit_free", jobserver->implicit_free); }
     bool token_opt = watch && jobserver && (jobserver->free_tokens > 0 || jobserver->implicit_free);
+    if (token_opt && last_was_token && jobserver->try_calls == try_calls_at_token) {
+      // ninja was just told that a token is available and did not even try to take it (failure budget
+      // spent): the real ppoll() would return at once again and again - a busy wait.  Not offered twice.
+      token_opt = false;
+      ev.set("spin", true);
+    }
     size_t nopts = running.size() + (token_opt ? 1 : 0);
     ev.set("opts", nopts);
     if ((int)w >= step_bound) { ev.set("step_bound", true); events->push(std::move(ev)); return BuildResult::Interrupted{}; }
@@ -378,7 +387,12 @@ struct SimRunner : public CommandRunner {
     else if (prng_sched) pick = Rnd() % nopts;
     ev.set("pick", pick);
     events->push(std::move(ev));
-    if (pick >= running.size()) return BuildResult::JobserverTokenAvailable{};
+    if (pick >= running.size()) {
+      last_was_token = true;
+      try_calls_at_token = jobserver->try_calls;
+      return BuildResult::JobserverTokenAvailable{};
+    }
+    last_was_token = false;
     return Finish(pick);
   }
 
@@ -487,6 +501,7 @@ JV Invocation(World& w, const JV& step, const std::string& scratch) {
   config.dry_run = step.boolean("dry");
   for (auto& p : step.at("disk_faults").at("stat_err").a) w.disk.stat_err.insert(p.s);
   for (auto& p : step.at("disk_faults").at("mkdir_fail").a) w.disk.mkdir_fail.insert(p.s);
+  for (auto& p : step.at("disk_faults").at("stat_err_late").a) w.disk.stat_err_late.insert(p.s);
   for (auto& p : step.at("disk_faults").at("write_fail").a) w.disk.write_fail.insert(p.s);
   g_rng = 88172645463325252ull ^ ((uint64_t)step.at("sched").num("seed", 1) * 0x9E3779B97F4A7C15ull);
   if (!g_rng) g_rng = 1;
@@ -832,8 +847,22 @@ int main(int argc, char** argv) {
             std::vector<int> opts, picks;
             for (auto& e : r.at("events").a) if (e.str("e") == "WAIT" && e.get("pick")) { opts.push_back((int)e.num("opts")); picks.push_back((int)e.num("pick")); }
             bool crashed = r.boolean("crash");
+            // optional follow-up invocations from the state this schedule ended in (e.g. the retry after failures)
+            JV follow = JV::Arr();
+            if (!crashed && runs <= (int)sched.num("then_cap", 0)) {
+              World w2 = w;
+              ApplySnapshot(w2, r.at("world"));
+              for (auto& ts : step.at("then").a) {
+                JV fr = RunInChild(w2, ts, timeout_s);
+                if (fr.boolean("crash")) { follow.push(std::move(fr)); break; }
+                ApplySnapshot(w2, fr.at("world"));
+                fr.set("world", JV());
+                follow.push(std::move(fr));
+              }
+            }
             if (!sched.boolean("keep_world")) { r.set("world", JV()); }
             line2.set("trace", std::move(r));
+            if (!follow.a.empty()) line2.set("then", std::move(follow));
             Emit(line2);
             if (crashed) break;
             // next choice list: increment the deepest position that still has alternatives
